@@ -316,6 +316,16 @@ func valOfRat(r *big.Rat, digits int64) *Opnd {
 	return mkCoef(v.Neg, v.Coef, v.E10, uint32(ndigits(v.Coef))+1, 0)
 }
 
+// binStr prints a big.Float as mantissa×2^exp (Text would expand up to 10^9 decimal digits for huge exponents).
+func binStr(f *big.Float) string {
+	if f.IsInf() || f.Sign() == 0 {
+		return f.Text('g', 5)
+	}
+	m := new(big.Float)
+	e := f.MantExp(m)
+	return fmt.Sprintf("%s×2^%d", m.Text('g', 25), e)
+}
+
 func floatLayers(tier string) []Layer {
 	thorough := tier == "thorough"
 	var layers []Layer
@@ -686,6 +696,78 @@ func floatLayers(tier string) []Layer {
 							ok := pv == nil && got != nil && got.Signbit() == sp.Neg && ((sp.Form == fZero && got.Sign() == 0 && !got.IsInf()) || (sp.Form == fInf && got.IsInf()))
 							if !ok {
 								c.Fail(fmt.Sprintf("Float x=%s", sp), fmt.Sprintf("panic=%v got=%v", pv, got))
+							}
+						}
+					}
+				}
+			},
+		})
+	}
+	// H8: Float at decimal exponents far outside the float64 range (power-of-5 computation with guard bits)
+	{
+		hexps := []int64{-640000000, -600000000, -120000000, -20000000, -5000000, -2000000, -300000, 300000, 2000000, 5000000, 20000000, 120000000, 600000000, 640000000}
+		coefs := []string{"1", "1234567890123456789", "99999999999999999999999999999999999999", "5"}
+		layers = append(layers, Layer{
+			Name:   "H8-Float-huge-exponents",
+			Units:  len(hexps),
+			Bounds: fmt.Sprintf("x.Float(z) for 4 coefficients × decimal exponents %v (inside big.Float's range, far outside float64's) × ± × target precision {24, 53, 64, 200}: within 64 units in the last binary place of coef×10^e computed in big.Float arithmetic with 256 extra bits", hexps),
+			Run: func(c *Ctx, u int) {
+				e := hexps[u]
+				// 10^|e| with 256 guard bits (binary exponentiation: ~60 roundings of relative size 2^-456)
+				pow := func(prec uint) *big.Float {
+					r := new(big.Float).SetPrec(prec).SetInt64(1)
+					b := new(big.Float).SetPrec(prec).SetInt64(10)
+					n := e
+					if n < 0 {
+						n = -n
+					}
+					for ; n > 0; n >>= 1 {
+						if n&1 == 1 {
+							r.Mul(r, b)
+						}
+						b.Mul(b, b)
+					}
+					return r
+				}
+				p10e := pow(200 + 256)
+				for _, cs := range coefs {
+					for _, neg := range []bool{false, true} {
+						xo := mkCoef(neg, mustInt(cs), 0, uint32(len(cs))+2, 0)
+						xo.V.E10 = e
+						xo.Exp = e + int64(len(cs))
+						x := xo.Build()
+						ref := new(big.Float).SetPrec(200 + 256).SetInt(mustInt(cs))
+						if e >= 0 {
+							ref.Mul(ref, p10e)
+						} else {
+							ref.Quo(ref, p10e)
+						}
+						if neg {
+							ref.Neg(ref)
+						}
+						for _, p := range []uint{24, 53, 64, 200} {
+							if c.Skip() {
+								continue
+							}
+							var got *big.Float
+							pv, _ := protect(func() { got = x.Float(new(big.Float).SetPrec(p)) })
+							key := fmt.Sprintf("Float x=%se%d prec=%d", cs, e, p)
+							if pv != nil || got == nil {
+								c.Fail(key, fmt.Sprintf("panic=%v result=%v", pv, got))
+								continue
+							}
+							if got.IsInf() || got.Sign() == 0 || got.Signbit() != neg || got.Prec() != p {
+								c.Fail(key, fmt.Sprintf("got %s (prec %d) for a finite non-zero value inside big.Float's range", binStr(got), got.Prec()))
+								continue
+							}
+							c.NonTrivial()
+							// |got − ref| in units of the last place of got
+							d := new(big.Float).SetPrec(200+256).Sub(got, ref)
+							d.Abs(d)
+							ulp := new(big.Float).SetMantExp(big.NewFloat(1), got.MantExp(nil)-int(p))
+							q, _ := new(big.Float).Quo(d, ulp).Float64()
+							if q > 64 {
+								c.Fail(key, fmt.Sprintf("%.1f units in the last place away (tolerance 64): got %s, reference %s", q, binStr(got), binStr(ref)))
 							}
 						}
 					}
